@@ -94,14 +94,24 @@ class ConstantExpressionEvaluator:
     def eval_compound_literal(self, expr):
         self.not_constant(expr.location, "A compound literal")
 
+    def check_number(self, value, expr):
+        """Operands must be numbers, not (link time) addresses."""
+        if not isinstance(value, (int, float)):
+            self.context.error(
+                "Unsupported use of an address in a constant expression",
+                expr.location,
+            )
+
     def eval_cast(self, expr):
         """Evaluate cast expression."""
         value = self.eval_expr(expr.expr)
 
         # do some real casting:
         if expr.typ.is_integer:
+            self.check_number(value, expr)
             value = self.convert(expr.typ, int(value))
         elif expr.typ.is_float or expr.typ.is_double:
+            self.check_number(value, expr)
             value = float(value)
         else:
             pass
@@ -118,6 +128,7 @@ class ConstantExpressionEvaluator:
         """Evaluate unary operation."""
         if expr.op in ["-", "~", "!"]:
             a = self.eval_expr(expr.a)
+            self.check_number(a, expr)
             op_map = {
                 "-": lambda x: -x,
                 "~": lambda x: ~x,
@@ -135,7 +146,9 @@ class ConstantExpressionEvaluator:
 
     def eval_ternop(self, expr):
         """Evaluate the conditional operator (only one branch is evaluated)."""
-        if self.eval_expr(expr.a) != 0:
+        condition = self.eval_expr(expr.a)
+        self.check_number(condition, expr)
+        if condition != 0:
             value = self.eval_expr(expr.b)
         else:
             value = self.eval_expr(expr.c)
@@ -147,16 +160,26 @@ class ConstantExpressionEvaluator:
 
         # Logical operators do not evaluate the rhs when lhs decides:
         if op == "&&":
-            if self.eval_expr(expr.a) == 0:
+            lhs = self.eval_expr(expr.a)
+            self.check_number(lhs, expr)
+            if lhs == 0:
                 return 0
-            return int(self.eval_expr(expr.b) != 0)
+            rhs = self.eval_expr(expr.b)
+            self.check_number(rhs, expr)
+            return int(rhs != 0)
         elif op == "||":
-            if self.eval_expr(expr.a) != 0:
+            lhs = self.eval_expr(expr.a)
+            self.check_number(lhs, expr)
+            if lhs != 0:
                 return 1
-            return int(self.eval_expr(expr.b) != 0)
+            rhs = self.eval_expr(expr.b)
+            self.check_number(rhs, expr)
+            return int(rhs != 0)
 
         lhs = self.eval_expr(expr.a)
         rhs = self.eval_expr(expr.b)
+        self.check_number(lhs, expr)
+        self.check_number(rhs, expr)
 
         # Undefined operations are diagnosed, python must not raise here:
         if op in ("/", "%") and isinstance(rhs, (int, float)) and rhs == 0:
